@@ -16,90 +16,467 @@ structure Lawful {α : Type} (d : Dec α) (e : α → Bytes) (wf : α → Prop) 
   total : ∀ bs s, d bs ≠ .panic s
 
 theorem leNat_leBytes (k n : Nat) (h : n < 256 ^ k) : leNat (leBytes k n) = n := by
-  sorry
+  induction k generalizing n with
+  | zero => simp at h; subst h; rfl
+  | succ k ih =>
+    have h2 : n / 256 < 256 ^ k := by
+      apply Nat.div_lt_of_lt_mul
+      rw [Nat.pow_succ] at h; omega
+    simp only [leBytes, leNat, ih _ h2, UInt8.toNat_ofNat']
+    omega
 
 theorem leBytes_leNat (b : Bytes) : leBytes b.length (leNat b) = b := by
-  sorry
+  induction b with
+  | nil => rfl
+  | cons x rest ih =>
+    have hx := UInt8.toNat_lt x
+    have h1 : (x.toNat + 256 * leNat rest) % 256 = x.toNat := by omega
+    have h2 : (x.toNat + 256 * leNat rest) / 256 = leNat rest := by omega
+    simp only [List.length_cons, leBytes, leNat, h1, h2, ih, UInt8.ofNat_toNat]
 
 theorem leNat_lt (b : Bytes) : leNat b < 256 ^ b.length := by
-  sorry
+  induction b with
+  | nil => simp [leNat]
+  | cons x rest ih =>
+    have hx := UInt8.toNat_lt x
+    simp only [List.length_cons, leNat, Nat.pow_succ]
+    omega
 
 theorem leBytes_length (k n : Nat) : (leBytes k n).length = k := by
-  sorry
+  induction k generalizing n with
+  | zero => rfl
+  | succ k ih => simp [leBytes, ih]
 
 theorem beNat_beBytes (k n : Nat) (h : n < 256 ^ k) : beNat (beBytes k n) = n := by
-  sorry
+  simp [beNat, beBytes, leNat_leBytes k n h]
 
 theorem beBytes_beNat (b : Bytes) : beBytes b.length (beNat b) = b := by
-  sorry
+  have := leBytes_leNat b.reverse
+  rw [List.length_reverse] at this
+  simp [beNat, beBytes, this]
 
 theorem beNat_lt (b : Bytes) : beNat b < 256 ^ b.length := by
-  sorry
+  have := leNat_lt b.reverse
+  rw [List.length_reverse] at this
+  exact this
 
 theorem beBytes_length (k n : Nat) : (beBytes k n).length = k := by
-  sorry
+  simp [beBytes, leBytes_length]
 
 /-- fixed-size byte arrays `[u8; n]` -/
 theorem take_lawful (n : Nat) : Lawful (take n) (fun b => b) (fun b => b.length = n) := by
-  sorry
+  refine ⟨?_, ?_, ?_⟩
+  · intro bs v rest h
+    simp only [take] at h
+    split at h
+    · cases h
+    · rename_i hlt
+      simp only [Res.ok.injEq, Prod.mk.injEq] at h
+      obtain ⟨rfl, rfl⟩ := h
+      refine ⟨(List.take_append_drop n bs).symm, ?_⟩
+      simp only [List.length_take]; omega
+  · intro v r hv
+    subst hv
+    simp [take]
+  · intro bs s h
+    simp only [take] at h
+    split at h <;> cases h
 
 /-- `u8` -/
 theorem u8_lawful : Lawful u8 (fun n => [UInt8.ofNat n]) (fun n => n < 256) := by
-  sorry
+  refine ⟨?_, ?_, ?_⟩
+  · intro bs v rest h
+    cases bs with
+    | nil => cases h
+    | cons b t =>
+      simp only [u8, Res.ok.injEq, Prod.mk.injEq] at h
+      obtain ⟨rfl, rfl⟩ := h
+      exact ⟨by simp, UInt8.toNat_lt b⟩
+  · intro v r hv
+    simp only [u8, List.singleton_append, UInt8.toNat_ofNat']
+    rw [Nat.mod_eq_of_lt hv]
+  · intro bs s h
+    cases bs <;> cases h
 
 /-- little-endian `u16/u32/u64` -/
 theorem le_lawful (k : Nat) : Lawful (le k) (encLe k) (fun n => n < 256 ^ k) := by
-  sorry
+  refine ⟨?_, ?_, ?_⟩
+  · intro bs v rest h
+    simp only [le] at h
+    cases ht : take k bs with
+    | ok p =>
+      obtain ⟨b, r⟩ := p
+      rw [ht] at h
+      simp only [Res.ok.injEq, Prod.mk.injEq] at h
+      obtain ⟨rfl, rfl⟩ := h
+      obtain ⟨h1, h2⟩ := (take_lawful k).sound _ _ _ ht
+      have h3 := leBytes_leNat b
+      have h4 := leNat_lt b
+      rw [h2] at h3 h4
+      exact ⟨by simp only [encLe, h3]; exact h1, h4⟩
+    | err e => rw [ht] at h; cases h
+    | panic s => rw [ht] at h; cases h
+  · intro v r hv
+    have := (take_lawful k).complete (leBytes k v) r (leBytes_length k v)
+    simp only [le, encLe, this, leNat_leBytes k v hv]
+  · intro bs s h
+    simp only [le] at h
+    cases ht : take k bs with
+    | ok p => rw [ht] at h; cases h
+    | err e => rw [ht] at h; cases h
+    | panic s' => exact (take_lawful k).total _ _ ht
 
 theorem encVarint_length (n : Nat) : (encVarint n).length = varintSize n := by
-  sorry
+  simp only [encVarint, varintSize]
+  split
+  · rfl
+  · split
+    · simp [leBytes_length]
+    · split <;> simp [leBytes_length]
+
+private theorem ne_toNat {b c : UInt8} (h : b ≠ c) : b.toNat ≠ c.toNat :=
+  fun hh => h (UInt8.toNat_inj.mp hh)
+
+private theorem le_sound' {k : Nat} {t : Bytes} {x : Nat} {r : Bytes} (h : le k t = .ok (x, r)) :
+    t = leBytes k x ++ r ∧ x < 256 ^ k := (le_lawful k).sound _ _ _ h
+
+private theorem le_complete' (k v : Nat) (r : Bytes) (h : v < 256 ^ k) :
+    le k (leBytes k v ++ r) = .ok (v, r) := (le_lawful k).complete v r h
 
 /-- compact-size integers: only the minimal form is accepted -/
 theorem varint_lawful : Lawful varint encVarint (fun n => n < 2^64) := by
-  sorry
+  refine ⟨?_, ?_, ?_⟩
+  · intro bs v rest h
+    cases bs with
+    | nil => cases h
+    | cons b t =>
+      simp only [varint] at h
+      split at h
+      · rename_i hb
+        subst hb
+        cases hl : le 8 t with
+        | ok p =>
+          obtain ⟨x, r⟩ := p
+          rw [hl] at h
+          simp only at h
+          split at h
+          · cases h
+          · rename_i hx
+            simp only [Res.ok.injEq, Prod.mk.injEq] at h
+            obtain ⟨rfl, rfl⟩ := h
+            obtain ⟨h1, h2⟩ := le_sound' hl
+            have e1 : ¬ x ≤ 0xFC := by omega
+            have e2 : ¬ x ≤ 0xFFFF := by omega
+            have e3 : ¬ x ≤ 0xFFFFFFFF := by omega
+            simp only [encVarint, if_neg e1, if_neg e2, if_neg e3, List.cons_append]
+            exact ⟨by rw [← h1], by omega⟩
+        | err e => rw [hl] at h; cases h
+        | panic s => rw [hl] at h; cases h
+      · split at h
+        · rename_i hb
+          subst hb
+          cases hl : le 4 t with
+          | ok p =>
+            obtain ⟨x, r⟩ := p
+            rw [hl] at h
+            simp only at h
+            split at h
+            · cases h
+            · rename_i hx
+              simp only [Res.ok.injEq, Prod.mk.injEq] at h
+              obtain ⟨rfl, rfl⟩ := h
+              obtain ⟨h1, h2⟩ := le_sound' hl
+              have e1 : ¬ x ≤ 0xFC := by omega
+              have e2 : ¬ x ≤ 0xFFFF := by omega
+              have e3 : x ≤ 0xFFFFFFFF := by omega
+              simp only [encVarint, if_neg e1, if_neg e2, if_pos e3, List.cons_append]
+              exact ⟨by rw [← h1], by omega⟩
+          | err e => rw [hl] at h; cases h
+          | panic s => rw [hl] at h; cases h
+        · split at h
+          · rename_i hb
+            subst hb
+            cases hl : le 2 t with
+            | ok p =>
+              obtain ⟨x, r⟩ := p
+              rw [hl] at h
+              simp only at h
+              split at h
+              · cases h
+              · rename_i hx
+                simp only [Res.ok.injEq, Prod.mk.injEq] at h
+                obtain ⟨rfl, rfl⟩ := h
+                obtain ⟨h1, h2⟩ := le_sound' hl
+                have e1 : ¬ x ≤ 0xFC := by omega
+                have e2 : x ≤ 0xFFFF := by omega
+                simp only [encVarint, if_neg e1, if_pos e2, List.cons_append]
+                exact ⟨by rw [← h1], by omega⟩
+            | err e => rw [hl] at h; cases h
+            | panic s => rw [hl] at h; cases h
+          · rename_i h1 h2 h3
+            simp only [Res.ok.injEq, Prod.mk.injEq] at h
+            obtain ⟨rfl, rfl⟩ := h
+            have n1 : b.toNat ≠ 255 := ne_toNat h1
+            have n2 : b.toNat ≠ 254 := ne_toNat h2
+            have n3 : b.toNat ≠ 253 := ne_toNat h3
+            have hb := UInt8.toNat_lt b
+            have e1 : b.toNat ≤ 0xFC := by omega
+            simp only [encVarint, if_pos e1, UInt8.ofNat_toNat, List.cons_append, List.nil_append]
+            exact ⟨trivial, by omega⟩
+  · intro v r hv
+    simp only [encVarint]
+    split
+    · rename_i e1
+      have hm : (UInt8.ofNat v).toNat = v := by
+        rw [UInt8.toNat_ofNat']; omega
+      have n1 : UInt8.ofNat v ≠ 0xFF := by
+        intro hh; have := congrArg UInt8.toNat hh; rw [hm] at this
+        have : v = 255 := this
+        omega
+      have n2 : UInt8.ofNat v ≠ 0xFE := by
+        intro hh; have := congrArg UInt8.toNat hh; rw [hm] at this
+        have : v = 254 := this
+        omega
+      have n3 : UInt8.ofNat v ≠ 0xFD := by
+        intro hh; have := congrArg UInt8.toNat hh; rw [hm] at this
+        have : v = 253 := this
+        omega
+      simp only [varint, List.cons_append, List.nil_append, if_neg n1, if_neg n2, if_neg n3, hm]
+    · split
+      · rename_i e1 e2
+        have hc := le_complete' 2 v r (by omega)
+        have d1 : ¬ ((0xFD : UInt8) = 0xFF) := by decide
+        have d2 : ¬ ((0xFD : UInt8) = 0xFE) := by decide
+        have hx : ¬ v < 0xFD := by omega
+        simp only [varint, List.cons_append, if_neg d1, if_neg d2, if_true, hc, if_neg hx]
+      · split
+        · rename_i e1 e2 e3
+          have hc := le_complete' 4 v r (by omega)
+          have d1 : ¬ ((0xFE : UInt8) = 0xFF) := by decide
+          have hx : ¬ v < 0x10000 := by omega
+          simp only [varint, List.cons_append, if_neg d1, if_true, hc, if_neg hx]
+        · rename_i e1 e2 e3
+          have hc := le_complete' 8 v r (by omega)
+          have hx : ¬ v < 0x100000000 := by omega
+          simp only [varint, List.cons_append, if_true, hc, if_neg hx]
+  · intro bs s h
+    cases bs with
+    | nil => cases h
+    | cons b t =>
+      simp only [varint] at h
+      split at h
+      · cases hl : le 8 t with
+        | ok p =>
+          obtain ⟨x, r⟩ := p
+          rw [hl] at h
+          simp only at h
+          split at h <;> cases h
+        | err e => rw [hl] at h; cases h
+        | panic s' => exact (le_lawful 8).total _ _ hl
+      · split at h
+        · cases hl : le 4 t with
+          | ok p =>
+            obtain ⟨x, r⟩ := p
+            rw [hl] at h
+            simp only at h
+            split at h <;> cases h
+          | err e => rw [hl] at h; cases h
+          | panic s' => exact (le_lawful 4).total _ _ hl
+        · split at h
+          · cases hl : le 2 t with
+            | ok p =>
+              obtain ⟨x, r⟩ := p
+              rw [hl] at h
+              simp only at h
+              split at h <;> cases h
+            | err e => rw [hl] at h; cases h
+            | panic s' => exact (le_lawful 2).total _ _ hl
+          · cases h
 
 /-- `Vec<u8>` with the allocation guard -/
 theorem bytesVec_lawful : Lawful bytesVec encBytesVec (fun b => b.length ≤ maxVecSize) := by
-  sorry
+  refine ⟨?_, ?_, ?_⟩
+  · intro bs v rest h
+    simp only [bytesVec] at h
+    cases hv : varint bs with
+    | ok p =>
+      obtain ⟨n, r1⟩ := p
+      rw [hv] at h
+      simp only at h
+      split at h
+      · cases h
+      · rename_i hn
+        obtain ⟨h1, _⟩ := varint_lawful.sound _ _ _ hv
+        obtain ⟨h2, h3⟩ := (take_lawful n).sound _ _ _ h
+        subst h3
+        simp only [encBytesVec, List.append_assoc]
+        exact ⟨by rw [h1, h2], by omega⟩
+    | err e => rw [hv] at h; cases h
+    | panic s => rw [hv] at h; cases h
+  · intro v r hv
+    have hlt : v.length < 2 ^ 64 := by
+      simp only [maxVecSize] at hv; omega
+    have hc := varint_lawful.complete v.length (v ++ r) hlt
+    have hn : ¬ v.length > maxVecSize := by omega
+    simp only [bytesVec, encBytesVec, List.append_assoc, hc, if_neg hn]
+    exact (take_lawful v.length).complete v r rfl
+  · intro bs s h
+    simp only [bytesVec] at h
+    cases hv : varint bs with
+    | ok p =>
+      obtain ⟨n, r1⟩ := p
+      rw [hv] at h
+      simp only at h
+      split at h
+      · cases h
+      · exact (take_lawful n).total _ _ h
+    | err e => rw [hv] at h; cases h
+    | panic s' => exact varint_lawful.total _ _ hv
 
 theorem encBytesVec_length (b : Bytes) : (encBytesVec b).length = varintSize b.length + b.length := by
-  sorry
+  simp [encBytesVec, encVarint_length]
 
 /-- exactly `n` items -/
 theorem repeatN_sound {α} (d : Dec α) (e : α → Bytes) (wf : α → Prop) (h : Lawful d e wf) :
     ∀ n bs vs rest, repeatN d n bs = .ok (vs, rest) →
       bs = vs.flatMap e ++ rest ∧ vs.length = n ∧ ∀ v ∈ vs, wf v := by
-  sorry
+  intro n
+  induction n with
+  | zero =>
+    intro bs vs rest hr
+    simp only [repeatN, Res.ok.injEq, Prod.mk.injEq] at hr
+    obtain ⟨rfl, rfl⟩ := hr
+    simp
+  | succ n ih =>
+    intro bs vs rest hr
+    simp only [repeatN] at hr
+    cases hd : d bs with
+    | ok p =>
+      obtain ⟨a, r1⟩ := p
+      rw [hd] at hr
+      simp only at hr
+      cases hrr : repeatN d n r1 with
+      | ok q =>
+        obtain ⟨as, r2⟩ := q
+        rw [hrr] at hr
+        simp only [Res.ok.injEq, Prod.mk.injEq] at hr
+        obtain ⟨rfl, rfl⟩ := hr
+        obtain ⟨h1, h2⟩ := h.sound _ _ _ hd
+        obtain ⟨h3, h4, h5⟩ := ih _ _ _ hrr
+        refine ⟨?_, by simp [h4], ?_⟩
+        · simp only [List.flatMap_cons, List.append_assoc]
+          rw [← h3, ← h1]
+        · intro v hv
+          rcases List.mem_cons.mp hv with rfl | hv
+          · exact h2
+          · exact h5 v hv
+      | err e => rw [hrr] at hr; cases hr
+      | panic s => rw [hrr] at hr; cases hr
+    | err e => rw [hd] at hr; cases hr
+    | panic s => rw [hd] at hr; cases hr
 
 theorem repeatN_complete {α} (d : Dec α) (e : α → Bytes) (wf : α → Prop) (h : Lawful d e wf) :
     ∀ vs r, (∀ v ∈ vs, wf v) → repeatN d vs.length (vs.flatMap e ++ r) = .ok (vs, r) := by
-  sorry
+  intro vs
+  induction vs with
+  | nil => intro r _; simp [repeatN]
+  | cons a as ih =>
+    intro r hw
+    have h1 := h.complete a (as.flatMap e ++ r) (hw a (List.mem_cons_self))
+    have h2 := ih r (fun v hv => hw v (List.mem_cons_of_mem _ hv))
+    simp only [List.length_cons, List.flatMap_cons, List.append_assoc, repeatN, h1, h2]
 
 theorem repeatN_total {α} (d : Dec α) (ht : ∀ bs s, d bs ≠ .panic s) :
     ∀ n bs s, repeatN d n bs ≠ .panic s := by
-  sorry
+  intro n
+  induction n with
+  | zero => intro bs s hr; cases hr
+  | succ n ih =>
+    intro bs s hr
+    simp only [repeatN] at hr
+    cases hd : d bs with
+    | ok p =>
+      obtain ⟨a, r1⟩ := p
+      rw [hd] at hr
+      simp only at hr
+      cases hrr : repeatN d n r1 with
+      | ok q => rw [hrr] at hr; cases hr
+      | err e => rw [hrr] at hr; cases hr
+      | panic s' => exact ih _ _ hrr
+    | err e => rw [hd] at hr; cases hr
+    | panic s' => exact ht _ _ hd
 
 /-- `Vec<T>`: count guard `len * size_of::<T>() ≤ MAX_VEC_SIZE` (`memSize > 0`) -/
 theorem vecOf_lawful {α} (memSize : Nat) (hm : 0 < memSize) (d : Dec α) (e : α → Bytes) (wf : α → Prop)
     (h : Lawful d e wf) :
     Lawful (vecOf memSize d) (encVec e) (fun l => l.length * memSize ≤ maxVecSize ∧ ∀ v ∈ l, wf v) := by
-  sorry
+  refine ⟨?_, ?_, ?_⟩
+  · intro bs v rest hr
+    simp only [vecOf] at hr
+    cases hv : varint bs with
+    | ok p =>
+      obtain ⟨n, r1⟩ := p
+      rw [hv] at hr
+      simp only at hr
+      split at hr
+      · cases hr
+      · split at hr
+        · cases hr
+        · rename_i hn1 hn2
+          obtain ⟨h1, _⟩ := varint_lawful.sound _ _ _ hv
+          obtain ⟨h2, h3, h4⟩ := repeatN_sound d e wf h _ _ _ _ hr
+          subst h3
+          simp only [encVec, List.append_assoc]
+          exact ⟨by rw [h1, h2], by omega, h4⟩
+    | err e => rw [hv] at hr; cases hr
+    | panic s => rw [hv] at hr; cases hr
+  · intro v r ⟨hlen, hw⟩
+    have hle : v.length ≤ v.length * memSize := Nat.le_mul_of_pos_right _ hm
+    have hmax : maxVecSize < 2 ^ 64 := by simp [maxVecSize]
+    have hlt : v.length < 2 ^ 64 := by omega
+    have hc := varint_lawful.complete v.length (v.flatMap e ++ r) hlt
+    have hn1 : ¬ v.length * memSize ≥ 2 ^ 64 := by omega
+    have hn2 : ¬ v.length * memSize > maxVecSize := by omega
+    simp only [vecOf, encVec, List.append_assoc, hc, if_neg hn1, if_neg hn2]
+    exact repeatN_complete d e wf h v r hw
+  · intro bs s hr
+    simp only [vecOf] at hr
+    cases hv : varint bs with
+    | ok p =>
+      obtain ⟨n, r1⟩ := p
+      rw [hv] at hr
+      simp only at hr
+      split at hr
+      · cases hr
+      · split at hr
+        · cases hr
+        · exact repeatN_total d h.total _ _ _ hr
+    | err e => rw [hv] at hr; cases hr
+    | panic s' => exact varint_lawful.total _ _ hv
 
 /-- `Vec<Vec<u8>>` -/
 theorem bytesVecVec_lawful :
     Lawful bytesVecVec encBytesVecVec
-      (fun l => l.length * 24 ≤ maxVecSize ∧ ∀ b ∈ l, b.length ≤ maxVecSize) := by
-  sorry
+      (fun l => l.length * 24 ≤ maxVecSize ∧ ∀ b ∈ l, b.length ≤ maxVecSize) :=
+  vecOf_lawful 24 (by decide) bytesVec encBytesVec _ bytesVec_lawful
 
 /-- injectivity of an encoder that has a complete decoder (used for ids: C02) -/
 theorem enc_injective_of_complete {α} {d : Dec α} {e : α → Bytes} {wf : α → Prop}
     (h : Lawful d e wf) (a b : α) (ha : wf a) (hb : wf b) (heq : e a = e b) : a = b := by
-  sorry
+  have h1 := h.complete a [] ha
+  have h2 := h.complete b [] hb
+  rw [heq, h2] at h1
+  simp only [Res.ok.injEq, Prod.mk.injEq] at h1
+  exact h1.1.symm
 
 /-- prefix-freeness: equal concatenations split equally -/
 theorem enc_prefix_free {α} {d : Dec α} {e : α → Bytes} {wf : α → Prop}
     (h : Lawful d e wf) (a b : α) (r₁ r₂ : Bytes) (ha : wf a) (hb : wf b)
     (heq : e a ++ r₁ = e b ++ r₂) : a = b ∧ r₁ = r₂ := by
-  sorry
+  have h1 := h.complete a r₁ ha
+  have h2 := h.complete b r₂ hb
+  rw [heq, h2] at h1
+  simp only [Res.ok.injEq, Prod.mk.injEq] at h1
+  exact ⟨h1.1.symm, h1.2.symm⟩
 
 end EV.Proofs.CodecPrim
